@@ -2,6 +2,7 @@ package gltf
 
 import (
 	"image/color"
+	"reflect"
 
 	"github.com/EliCDavis/polyform/math/quaternion"
 	"github.com/EliCDavis/polyform/math/trs"
@@ -117,6 +118,15 @@ func (pm *PolyformMaterial) equal(other *PolyformMaterial) bool {
 	if !colorsEqual(pm.EmissiveFactor, other.EmissiveFactor) {
 		return false
 	}
+	if !pm.NormalTexture.equal(other.NormalTexture) {
+		return false
+	}
+	if !pm.OcclusionTexture.equal(other.OcclusionTexture) {
+		return false
+	}
+	if !reflect.DeepEqual(pm.Extras, other.Extras) {
+		return false
+	}
 
 	if (pm.AlphaMode == nil) != (other.AlphaMode == nil) {
 		return false
@@ -180,6 +190,21 @@ func (pt *PolyformNormal) equal(other *PolyformNormal) bool {
 		return false
 	}
 	return float64PtrsEqual(pt.Scale, other.Scale)
+}
+
+func (pt *PolyformOcclusion) equal(other *PolyformOcclusion) bool {
+	if pt == other {
+		return true
+	}
+
+	if pt == nil || other == nil {
+		return false
+	}
+
+	if !pt.PolyformTexture.equal(other.PolyformTexture) {
+		return false
+	}
+	return float64PtrsEqual(pt.Strength, other.Strength)
 }
 
 func (pmr *PolyformPbrMetallicRoughness) equal(other *PolyformPbrMetallicRoughness) bool {
